@@ -2,6 +2,7 @@ from __future__ import annotations
 
 import codecs
 import configparser
+import errno
 import os.path
 import re
 import shelve
@@ -35,7 +36,12 @@ class VFSZip(VFS_Real):
         super().__init__(config, chain)
         self.zipfilename = zipfilename
         self.zipfd = self.chain.open(self.zipfilename, mode="rb")
-        self.zip = zipfile.ZipFile(self.zipfd)
+        try:
+            self.zip = zipfile.ZipFile(self.zipfd)
+        except zipfile.BadZipFile as e:
+            # Looked like an archive to is_zipfile(), but is damaged.
+            self.zipfd.close()
+            raise OSError(errno.EINVAL, str(e), self.zipfilename) from e
 
         self.invalid_paths = set()
         self.entrycache = {}
